@@ -198,7 +198,13 @@ func (r *runner) childCtx(parent context.Context, kind string, variant int, run 
 			outMD, _ = metadata.FromOutgoingContext(ctx)
 			return nil
 		}
-		_ = sgrpc.ClientTransactionInterceptor(parent, "/svc/m", nil, nil, nil, invoker)
+		callCtx := parent
+		if tm.IsSeataContext(parent) && variant%16 >= 8 {
+			// the caller forwards metadata it received itself (a stale xid of somebody else's transaction is in the
+			// outgoing metadata already): the callee must still see the caller's own transaction, nothing else
+			callCtx = metadata.AppendToOutgoingContext(parent, constant.XidKey, "10.9.9.9:8091:777")
+		}
+		_ = sgrpc.ClientTransactionInterceptor(callCtx, "/svc/m", nil, nil, nil, invoker)
 		in := metadata.NewIncomingContext(r.ctx, outMD)
 		_, _ = sgrpc.ServerTransactionInterceptor(in, nil, &grpc.UnaryServerInfo{FullMethod: "/svc/m"}, func(ctx context.Context, req interface{}) (interface{}, error) {
 			run(ctx)
